@@ -1,7 +1,12 @@
 (* C08 — random sampling from a specification is exactly uniform.
 
    Only statements; every proof is an application of lemmas of
-   Count/SampleWalk.v, SamplePick.v, SampleComps.v, SampleProb.v, SampleUniform.v.
+   Count/SampleWalk.v, SamplePick.v, SampleComps.v, SampleProb.v, SampleUniform.v (sections 1-4),
+   SampleEquiv.v (5), SampleUniformTrue.v (6), SampleParams{Dict,Spec,Union,Product,Sums,Totals,Pick}.v and
+   SampleUniformParams.v (7); the examples are proved in SampleParamsExample.v / SampleParamsExample2.v.
+   Sections: 1 threshold lemma, 2 _valid_compositions, 3 uniformity without parameters, 4 rejection,
+   5 equivalence rules and paths, 6 uniformity w.r.t. the true counts (link to C01), 7 uniformity WITH
+   extra parameters (C08_uniform_params, its refutation without fixed_honest, totals, path rules).
 
    The random source is an explicit argument.  A sampler is a term of the free
    monad rc (Count/SampleModel.v): [Draw lo hi k] is one randint(lo, hi) /
@@ -16,7 +21,13 @@
    utils.compositions of the current /repo on every run.                        *)
 From Coq Require Import ZArith List Bool Lia QArith.
 From CSS Require Import Gen.Prelude Gen.Compositions Count.CompositionsSpec
-  Count.SampleModel Count.SampleWalk Count.SamplePick Count.SampleComps Count.SampleProb Count.SampleUniform.
+  Forest.Spec Spec.Eval
+  Count.Terms Count.Constructors Count.ConstructorsUnionProduct Count.ConstructorsDict
+  Count.SampleModel Count.SampleWalk Count.SamplePick Count.SampleComps Count.SampleProb Count.SampleUniform
+  Count.SampleEquiv Count.SampleUniformTrue
+  Count.SampleModelParams Count.SampleParamsDict Count.SampleParamsSpec Count.SampleParamsUnion
+  Count.SampleParamsProduct Count.SampleParamsTotals Count.SampleParamsPick Count.SampleUniformParams
+  Count.SampleParamsExample Count.SampleParamsExample2.
 Import ListNotations.
 Open Scope Z_scope.
 
@@ -207,6 +218,294 @@ Theorem C08_reject_empty : forall rule_of cnt fuel root n draws,
   run (spec_sample rule_of cnt fuel root n) draws = (Err E_INVALID_OP, [], draws).
 Proof. exact spec_sample_reject. Qed.
 
+(* ------------------------------------------------------------ 5. equivalence rules and paths (no parameters) *)
+(* EquivalenceRule / EquivalencePathRule have a one-child DisjointUnion as constructor and a bijection
+   as backward map: in the model they are classes of kind K_UNION with one child, so C08_uniform
+   covers specifications containing them.  Explicitly: such a step preserves the count and the
+   distribution (the parent returns UNode c 0 t exactly as often as the child returns t) ... *)
+Theorem C08_equivalence_step : forall (rule_of : nat -> cls) (cnt : nat -> Z -> Z),
+  (forall c n, 0 <= cnt c n) ->
+  (forall c n, c_kind (rule_of c) = K_UNION ->
+     cnt c n = py_sum (map (fun ci => cnt ci n) (c_kids (rule_of c)))) ->
+  forall fuel c ci n t,
+    c_kind (rule_of c) = K_UNION -> c_kids (rule_of c) = [ci] -> 1 <= cnt ci n ->
+    cnt c n = cnt ci n /\
+    (prob (tree_eqb (UNode c 0 t)) (sample rule_of cnt (S fuel) c n)
+     == prob (tree_eqb t) (sample rule_of cnt fuel ci n))%Q.
+Proof.
+  intros rule_of cnt H0 Hu fuel c ci n t Hk Hc Hpos. split.
+  - apply (unary_count rule_of cnt Hu c ci n). split; assumption.
+  - apply (unary_step rule_of cnt Hu). split; assumption. exact Hpos.
+Qed.
+
+(* ... and so does a whole chain c -> c1 -> ... -> last of them (what EquivalencePathRule collapses) *)
+Theorem C08_equivalence_path : forall (rule_of : nat -> cls) (cnt : nat -> Z -> Z),
+  (forall c n, 0 <= cnt c n) ->
+  (forall c n, c_kind (rule_of c) = K_UNION ->
+     cnt c n = py_sum (map (fun ci => cnt ci n) (c_kids (rule_of c)))) ->
+  forall path c last fuel n t,
+    chain rule_of c path last -> 1 <= cnt last n ->
+    cnt c n = cnt last n /\
+    (prob (tree_eqb (wrap c path t)) (sample rule_of cnt (length path + fuel) c n)
+     == prob (tree_eqb t) (sample rule_of cnt fuel last n))%Q.
+Proof.
+  intros rule_of cnt H0 Hu path c last fuel n t Hc Hpos. split.
+  - apply (chain_count rule_of cnt Hu path c last n Hc).
+  - apply (chain_steps rule_of cnt Hu path c last fuel n t Hc Hpos).
+Qed.
+
+(* ------------------------------------------------------------ 6. uniform w.r.t. the TRUE counts (link to C01) *)
+(* C08_uniform assumes only that the count table U satisfies the get_terms recurrences.  With the
+   rules packaged as the term operators of C01 (c08_rule: atom / union with shifts 0 / product with
+   child i shifted by the other children's minimum sizes; their locality is proved), if T is the
+   true enumeration (nothing of negative size, every rule genuine) and the root is productive
+   w.r.t. the keys of the rules (C03's notion; C03 + C11 discharge it for forest searches, see
+   Spec/Pipeline.v), then U = T on the root (C01's unique_solution) and the sampler returns every
+   parse tree of the root with probability 1 / (true number of objects of that size). *)
+Theorem C08_uniform_true_counts : forall (rule_of : nat -> cls) (U T : nat -> Z -> Z),
+  (forall c n, 0 <= U c n) ->
+  (forall c, c_kind (rule_of c) = K_ATOM -> U c (cmin rule_of c) = 1) ->
+  (forall c n, c_kind (rule_of c) = K_UNION ->
+     U c n = py_sum (map (fun ci => U ci n) (c_kids (rule_of c)))) ->
+  (forall c n, c_kind (rule_of c) = K_PRODUCT ->
+     U c n = py_sum (map (prod_counts U (c_kids (rule_of c)))
+                         (compositions n (zlen (c_kids (rule_of c)))
+                                       (map (cmin rule_of) (c_kids (rule_of c)))
+                                       (map (cmax rule_of) (c_kids (rule_of c)))))) ->
+  (forall c, 0 <= cmin rule_of c) ->
+  (forall c m, U c m <> 0 -> cmin rule_of c <= m /\ (c_atom (rule_of c) = true -> m <= cmin rule_of c)) ->
+  (forall c, c_kind (rule_of c) = K_PRODUCT ->
+     c_kids (rule_of c) <> [] /\ cmin rule_of c <= py_sum (map (cmin rule_of) (c_kids (rule_of c)))) ->
+  (forall c, c_kind (rule_of c) = K_ATOM -> c_atom (rule_of c) = true) ->
+  (forall c m, m < 0 -> T c m = 0) ->
+  (forall c r, c08_rule rule_of c = Some r -> genuine Z T c r) ->
+  forall (keys : list fkey) (root : nat),
+  (forall k, In k keys -> exists r, c08_rule rule_of (parent k) = Some r /\ kids k = r_kids Z r) ->
+  pumps keys root ->
+  (forall n, 0 <= n -> U root n = T root n) /\
+  forall (t : tree) (fuel : nat),
+    wf rule_of t root -> (height t < fuel)%nat ->
+    (prob (tree_eqb t) (spec_sample rule_of U fuel root (tsize rule_of t))
+     == 1 / inject_Z (T root (tsize rule_of t)))%Q.
+Proof.
+  intros. split.
+  - intros n Hn. eapply root_counts_true; eauto.
+  - intros t fuel Hwf Hf. eapply sample_uniform_true; eauto.
+Qed.
+
+(* the operators are local in C01's sense (what C10 establishes for the library's constructors) *)
+Theorem C08_rules_local : forall (rule_of : nat -> cls) c r, c08_rule rule_of c = Some r -> local Z r.
+Proof. exact c08_rules_local. Qed.
+
+(* ------------------------------------------------------------ 7. uniformity WITH extra parameters *)
+(* Specifications whose classes carry extra parameters (Count/SampleModelParams.v): a class is
+   described by kind / minimum size / is_atom / children, its extra_parameters, get_minimum_value,
+   and the constructor's dictionaries (extra_parameters[i]: parent variable -> child variable;
+   fixed_values[i]); tab c n is get_terms(n) of its rule, a Counter of parameter tuples.
+   A parse tree t stands for an object of size ptsize t with parameter tuple tpar t
+   (Count/SampleParamsSpec.v): an atom has its minimum values; through a union child i the tuple is
+   mapped by dict_sem of C09 (parent parameter pv = the child's value of ep_i[pv], 0 when pv is not
+   a key: dropped statistics; two parent parameters may share a child parameter: merged
+   statistics); at a product the children's mapped tuples add up (_new_param).
+
+   Hypotheses (all are hypotheses on the specification, named predicates of SampleParamsSpec.v):
+     tables_ok      parameter names distinct, tables are Counters (distinct keys) of numbers >= 0
+     contract_ok    minimum_size_of_object / is_atom / get_minimum_value are honest:
+                    count(c, m, q) <> 0 -> min <= m (= for atoms) and minval <= q_j (= for atoms)
+     atom_ok        a verified atom has one object, of the minimum size, with the minimum values
+     union_ok       as many dictionaries / fixed_values as children; every dictionary is a C09
+                    wf_dict with values among the child's parameters; fixed_values has distinct keys
+                    among the child's parameters; EVERY child parameter is the image of a parent
+                    parameter or fixed (else the code raises KeyError); and the table is what
+                    DisjointUnion.get_terms computes:  teq (tab c n) (union_table maps child tables)
+     product_ok     at least one child; dictionaries wf_dict; EVERY child parameter is the image of a
+                    parent parameter (else KeyError); the parent's declared minima (size and
+                    parameters) are at most the sums of the children's; and the table is what
+                    CartesianProduct.get_terms computes:
+                    teq (tab c n) (product_table maps min_sizes max_sizes child tables n)
+     fixed_honest   a value in fixed_values is the value of that parameter on EVERY object of the
+                    child.  This is exactly what excludes the OPEN finding
+                    "eqpath-child-statistic-untracked-by-parent-sampling": EquivalencePathRule
+                    fixes every untracked child statistic to 0 (C08_path_fixed_honest below says
+                    what fixed_honest means there); C08_uniform_params_refuted shows that without it
+                    the conclusion fails in the model, as it does in the code.
+   P is the **parameters dictionary of the call: distinct keys, exactly the root's parameters, holding
+   the tuple of t.
+   Conclusion: the specification-level sampler called with (size of t, P) returns t with probability
+   exactly 1 / count(root, size of t, parameter tuple of t). *)
+Theorem C08_uniform_params : forall (rule_of : nat -> pcls) (tab : nat -> Z -> terms),
+  tables_ok rule_of tab -> contract_ok rule_of tab ->
+  (forall c, pk_kind (rule_of c) = K_ATOM -> atom_ok rule_of tab c) ->
+  (forall c, pk_kind (rule_of c) = K_UNION -> union_ok rule_of tab c) ->
+  (forall c, pk_kind (rule_of c) = K_PRODUCT -> product_ok rule_of tab c) ->
+  (forall c, pk_kind (rule_of c) = K_UNION -> fixed_honest rule_of tab c) ->
+  forall (t : tree) (root fuel : nat) (P : dict),
+    pwf rule_of t root -> (height t < fuel)%nat -> dict_for rule_of root P (tpar rule_of t) ->
+    (prob (tree_eqb t) (pspec_sample rule_of tab fuel root (ptsize rule_of t) P)
+     == 1 / inject_Z (pcnt tab root (ptsize rule_of t) (tpar rule_of t)))%Q.
+Proof. intros. eapply pspec_sample_uniform; eauto. Qed.
+
+(* every parse tree is counted at its size and parameter tuple: the denominator is never 0 *)
+Theorem C08_counted_params : forall (rule_of : nat -> pcls) (tab : nat -> Z -> terms),
+  tables_ok rule_of tab -> contract_ok rule_of tab ->
+  (forall c, pk_kind (rule_of c) = K_ATOM -> atom_ok rule_of tab c) ->
+  (forall c, pk_kind (rule_of c) = K_UNION -> union_ok rule_of tab c) ->
+  (forall c, pk_kind (rule_of c) = K_PRODUCT -> product_ok rule_of tab c) ->
+  (forall c, pk_kind (rule_of c) = K_UNION -> fixed_honest rule_of tab c) ->
+  forall (t : tree) (c : nat), pwf rule_of t c -> 1 <= pcnt tab c (ptsize rule_of t) (tpar rule_of t).
+Proof. intros. eapply pwf_counted; eauto. Qed.
+
+(* asked for (n, p) with a non-zero count, the sampler of a class never returns a tree of another
+   size or another parameter tuple (this needs NO fixed_honest) *)
+Theorem C08_support_params : forall (rule_of : nat -> pcls) (tab : nat -> Z -> terms),
+  tables_ok rule_of tab -> contract_ok rule_of tab ->
+  (forall c, pk_kind (rule_of c) = K_ATOM -> atom_ok rule_of tab c) ->
+  (forall c, pk_kind (rule_of c) = K_UNION -> union_ok rule_of tab c) ->
+  (forall c, pk_kind (rule_of c) = K_PRODUCT -> product_ok rule_of tab c) ->
+  forall fuel c n P p t,
+    dict_for rule_of c P p -> 0 < pcnt tab c n p ->
+    (ptsize rule_of t <> n \/ tpar rule_of t <> p) ->
+    (prob (tree_eqb t) (psample rule_of tab fuel c n P) == 0)%Q.
+Proof. intros. eapply psample_support; eauto. Qed.
+
+(* the link between the sampling weights and the counts, rule by rule: at a union rule of the
+   specification get_extra_parameters raises nothing, no weight computation raises, and the walk's
+   total is at most what DisjointUnion.get_terms counts (these are the hypotheses of
+   C08_threshold_union: every draw in 1..total returns, branch j for exactly w_j draws) ... *)
+Theorem C08_union_weights_params : forall (rule_of : nat -> pcls) (tab : nat -> Z -> terms) c P p n,
+  tables_ok rule_of tab -> union_ok rule_of tab c -> dict_for rule_of c P p ->
+  exists extra,
+    union_extra (pk_eps (rule_of c)) (pk_fixed (rule_of c)) P = Ok extra /\
+    let bs := union_branches (pars rule_of c) (map (kid_at rule_of tab n) (pk_kids (rule_of c)))
+                             (pk_eps (rule_of c)) extra in
+    weights_ok (union_weight n P) bs /\ total_weight (union_weight n P) bs <= pcnt tab c n p.
+Proof. intros. apply union_weights_params; assumption. Qed.
+
+(* ... and at a product rule: no weight computation over _valid_compositions raises and the total of
+   the weights is at most what CartesianProduct.get_terms counts (each weight is the mass of a
+   distinct set of the combinations get_terms sums over) *)
+Theorem C08_product_weights_params : forall (rule_of : nat -> pcls) (tab : nat -> Z -> terms) c p n,
+  tables_ok rule_of tab -> contract_ok rule_of tab -> product_ok rule_of tab c ->
+  length p = length (pars rule_of c) ->
+  let kids := map (pkid rule_of tab n) (kid_eps rule_of c) in
+  let comps := prod_comps (pars rule_of c) (pmins_of (rule_of c)) kids (n :: p) in
+  weights_ok (prod_weight (pars rule_of c) kids) comps /\
+  total_weight (prod_weight (pars rule_of c) kids) comps <= pcnt tab c n p.
+Proof.
+  intros. split; [apply comps_weights_ok; assumption|apply product_total_le; assumption].
+Qed.
+
+(* With honest fixed values and tables whose keys have the arity of their class (arity_ok) the
+   walk's total IS the count, at union rules and at product rules: hence EVERY draw r in 1..count
+   returns a child / a composition and the dictionaries its sub-samplers are called with (no
+   RuntimeError, no other exception), and every r above the count raises RuntimeError.  (For
+   products no fixed_values are involved.)  Without fixed_honest only <= holds: the missing mass
+   is the RuntimeError of the open finding. *)
+Theorem C08_union_total_params : forall (rule_of : nat -> pcls) (tab : nat -> Z -> terms) c P p n,
+  tables_ok rule_of tab -> arity_ok rule_of tab -> union_ok rule_of tab c -> fixed_honest rule_of tab c ->
+  dict_for rule_of c P p ->
+  exists extra,
+    union_extra (pk_eps (rule_of c)) (pk_fixed (rule_of c)) P = Ok extra /\
+    let bs := union_branches (pars rule_of c) (map (kid_at rule_of tab n) (pk_kids (rule_of c)))
+                             (pk_eps (rule_of c)) extra in
+    weights_ok (union_weight n P) bs /\ total_weight (union_weight n P) bs = pcnt tab c n p.
+Proof. intros. apply union_total_params; assumption. Qed.
+
+Theorem C08_product_total_params : forall (rule_of : nat -> pcls) (tab : nat -> Z -> terms) c p n,
+  tables_ok rule_of tab -> contract_ok rule_of tab -> arity_ok rule_of tab -> product_ok rule_of tab c ->
+  length p = length (pars rule_of c) ->
+  let kids := map (pkid rule_of tab n) (kid_eps rule_of c) in
+  let comps := prod_comps (pars rule_of c) (pmins_of (rule_of c)) kids (n :: p) in
+  total_weight (prod_weight (pars rule_of c) kids) comps = pcnt tab c n p.
+Proof. intros. apply product_total_eq; assumption. Qed.
+
+Theorem C08_draws_return_union_params : forall (rule_of : nat -> pcls) (tab : nat -> Z -> terms) c P p n,
+  tables_ok rule_of tab -> arity_ok rule_of tab -> union_ok rule_of tab c -> fixed_honest rule_of tab c ->
+  dict_for rule_of c P p ->
+  (forall r, 1 <= r <= pcnt tab c n p ->
+     exists i q, union_pick_dict (pars rule_of c) (map (kid_at rule_of tab n) (pk_kids (rule_of c)))
+                                 (pk_eps (rule_of c)) (pk_fixed (rule_of c)) n P r = Ok (i, q)) /\
+  (forall r, pcnt tab c n p < r ->
+     union_pick_dict (pars rule_of c) (map (kid_at rule_of tab n) (pk_kids (rule_of c)))
+                     (pk_eps (rule_of c)) (pk_fixed (rule_of c)) n P r = Err E_RUNTIME).
+Proof. intros. apply union_pick_returns; assumption. Qed.
+
+Theorem C08_draws_return_product_params : forall (rule_of : nat -> pcls) (tab : nat -> Z -> terms) c P p n,
+  tables_ok rule_of tab -> contract_ok rule_of tab -> arity_ok rule_of tab -> product_ok rule_of tab c ->
+  dict_for rule_of c P p ->
+  (forall r, 1 <= r <= pcnt tab c n p ->
+     exists ex, prod_pick_dict (pars rule_of c) (pmins_of (rule_of c))
+                               (map (pkid rule_of tab n) (kid_eps rule_of c)) n P r = Ok ex) /\
+  (forall r, pcnt tab c n p < r ->
+     prod_pick_dict (pars rule_of c) (pmins_of (rule_of c))
+                    (map (pkid rule_of tab n) (kid_eps rule_of c)) n P r = Err E_RUNTIME).
+Proof. intros. apply prod_pick_returns; assumption. Qed.
+
+(* the walks of the specification-level model choose what union_pick / prod_pick choose: the
+   functions compared draw by draw with the real constructors and counted by the threshold theorems *)
+Theorem C08_pick_dict_union : forall pvars kids eps fixed n params extra r j,
+  union_extra eps fixed params = Ok extra ->
+  upicks j (union_pick pvars kids eps fixed n params r) = dpicks j (union_pick_dict pvars kids eps fixed n params r).
+Proof. exact union_pick_dict_index. Qed.
+
+Theorem C08_pick_dict_product : forall pvars pmins kids n params r,
+  prod_pick pvars pmins kids n params r =
+  match prod_pick_dict pvars pmins kids n params r with
+  | Ok ex => prod_tokens kids ex
+  | Err e => Err e
+  end.
+Proof. exact prod_pick_of_dict. Qed.
+
+(* EquivalencePathRule.constructor: the dictionary is C09's composition of the chain's dictionaries;
+   with fixed_values = {k: 0 for the last class's parameters that are not values of it} every
+   parameter of the last class is determined; and fixed_honest holds for such a rule exactly when
+   the statistics of the last class that the first class does not track are 0 on all its objects *)
+Theorem C08_path_dictionary : forall first steps,
+  path_dict first steps = fold_left dict_compose steps (id_dict first).
+Proof. exact path_dict_fold. Qed.
+
+Theorem C08_path_fixed_determined : forall last (d : dict) cv,
+  In cv last -> In cv (map snd d) \/ In cv (map fst (path_fixed last d)).
+Proof. exact path_fixed_determined. Qed.
+
+Theorem C08_path_fixed_honest : forall rule_of tab c ci (D : dict),
+  pk_kids (rule_of c) = [ci] -> pk_eps (rule_of c) = [D] ->
+  pk_fixed (rule_of c) = [path_fixed (pars rule_of ci) D] ->
+  (fixed_honest rule_of tab c <->
+   forall k, In k (pars rule_of ci) -> ~ In k (map snd D) ->
+   forall n q, pcnt tab ci n q <> 0 -> dget (combine (pars rule_of ci) q) k = Some 0).
+Proof. exact path_fixed_honest. Qed.
+
+(* WITHOUT fixed_honest the conclusion of C08_uniform_params is false.  All words over {a, b}: the
+   root tracks nothing and is equivalent, by one step whose dictionary is empty, to the class
+   tracking the number of a's; its rule carries the dictionary and the fixed_values
+   EquivalencePathRule.constructor computes ({} and {k: 0}).  Every other hypothesis holds, the
+   count of size 1 is 2, but the word "a" is returned with probability 0 (and the draw r = 2 raises
+   RuntimeError): the model reproduces the open finding of known_findings.json. *)
+Theorem C08_uniform_params_refuted :
+  exists (rule_of : nat -> pcls) (tab : nat -> Z -> terms) (t : tree) (root fuel : nat) (P : dict),
+    tables_ok rule_of tab /\ contract_ok rule_of tab /\
+    (forall c, pk_kind (rule_of c) = K_ATOM -> atom_ok rule_of tab c) /\
+    (forall c, pk_kind (rule_of c) = K_UNION -> union_ok rule_of tab c) /\
+    (forall c, pk_kind (rule_of c) = K_PRODUCT -> product_ok rule_of tab c) /\
+    (forall c, c <> root -> pk_kind (rule_of c) = K_UNION -> fixed_honest rule_of tab c) /\
+    pk_kind (rule_of root) = K_UNION /\
+    pk_eps (rule_of root) = [path_dict (pars rule_of root) [[]]] /\
+    pk_fixed (rule_of root) = [path_fixed [1] (path_dict (pars rule_of root) [[]])] /\
+    ~ fixed_honest rule_of tab root /\
+    pwf rule_of t root /\ (height t < fuel)%nat /\ dict_for rule_of root P (tpar rule_of t) /\
+    pcnt tab root (ptsize rule_of t) (tpar rule_of t) = 2 /\
+    (prob (tree_eqb t) (pspec_sample rule_of tab fuel root (ptsize rule_of t) P) == 0)%Q /\
+    fst (fst (run (pspec_sample rule_of tab fuel root (ptsize rule_of t) P) [2])) = Err E_RUNTIME.
+Proof. exact uniform_params_refuted. Qed.
+
+(* count 0 (or less) => InvalidOperationError before any draw, with parameters *)
+Theorem C08_reject_empty_params : forall rule_of tab fuel root n P v draws,
+  pcount rule_of tab root n P = Ok v -> v <= 0 ->
+  pspec_sample rule_of tab fuel root n P = Fail E_INVALID_OP /\
+  run (pspec_sample rule_of tab fuel root n P) draws = (Err E_INVALID_OP, [], draws).
+Proof. exact pspec_sample_reject. Qed.
+
 (* ------------------------------------------------------------ non-vacuity *)
 (* All words over {a, b}:  0 = eps + a.0 + b.0  (classes: 1 = eps, 2 = a.0, 3 = a, 4 = b.0, 5 = b) *)
 Module Ex.
@@ -337,6 +636,51 @@ Module Ex.
     - reflexivity.
   Qed.
 
+  (* the hypotheses of C08_uniform_true_counts are satisfiable: the same specification with its forest
+     keys (the product a.0 reads class 0 with shift 1), U = T = cnt *)
+  Definition keys : list fkey :=
+    [mkkey 0 [(1%nat, 0); (2%nat, 0); (4%nat, 0)]; mkkey 1 []; mkkey 2 [(3%nat, 0); (0%nat, 1)]; mkkey 3 [];
+     mkkey 4 [(5%nat, 0); (0%nat, 1)]; mkkey 5 []].
+
+  Lemma root_pumps : pumps keys 0.
+  Proof.
+    assert (A : forall c v, (c = 1 \/ c = 3 \/ c = 5)%nat -> derivable keys c v).
+    { intros c v [ -> | [ -> | -> ] ].
+      - apply (der_rule keys (mkkey 1 []) v); [simpl; tauto|intros c s []].
+      - apply (der_rule keys (mkkey 3 []) v); [simpl; tauto|intros c s []].
+      - apply (der_rule keys (mkkey 5 []) v); [simpl; tauto|intros c s []]. }
+    assert (G : forall n v, v <= Z.of_nat n -> derivable keys 0 v).
+    { induction n as [|n IH]; intros v Hv; [apply der_zero; lia|].
+      destruct (Z_le_gt_dec v 0) as [H0|H0]; [apply der_zero; exact H0|].
+      apply (der_rule keys (mkkey 0 [(1%nat, 0); (2%nat, 0); (4%nat, 0)]) v); [simpl; tauto|].
+      intros c s [E|[E|[E|[]]]]; injection E as <- <-.
+      - apply A. tauto.
+      - apply (der_rule keys (mkkey 2 [(3%nat, 0); (0%nat, 1)]) (v - 0)); [simpl; tauto|].
+        intros c s [E|[E|[]]]; injection E as <- <-; [apply A; tauto|apply IH; lia].
+      - apply (der_rule keys (mkkey 4 [(5%nat, 0); (0%nat, 1)]) (v - 0)); [simpl; tauto|].
+        intros c s [E|[E|[]]]; injection E as <- <-; [apply A; tauto|apply IH; lia]. }
+    intros v. apply (G (Z.to_nat v)). lia.
+  Qed.
+
+  Example true_counts_hypotheses_hold :
+    (forall c, c_kind (rule_of c) = K_ATOM -> c_atom (rule_of c) = true) /\
+    (forall c m, m < 0 -> cnt c m = 0) /\
+    (forall c r, c08_rule rule_of c = Some r -> genuine Z cnt c r) /\
+    (forall k, In k keys -> exists r, c08_rule rule_of (parent k) = Some r /\ kids k = r_kids Z r) /\
+    pumps keys 0.
+  Proof.
+    destruct hypotheses_hold as (H1 & H2 & H3 & H4 & H5 & H6 & H7 & _).
+    assert (Hat : forall c, c_kind (rule_of c) = K_ATOM -> c_atom (rule_of c) = true).
+    { intros c. cases c; simpl; intros H; try discriminate H; try reflexivity. destruct c as [|[|c]]; discriminate H. }
+    split; [exact Hat|]. split.
+    - intros c m Hm. destruct (Z.eq_dec (cnt c m) 0) as [E|E]; [exact E|].
+      destruct (H6 c m E) as [X _]. pose proof (H5 c). lia.
+    - split; [|split; [|exact root_pumps]].
+      + intros c r Hr n Hn. apply (U_satisfies rule_of cnt H2 H3 H4 H6 Hat c r n Hr Hn).
+      + intros k Hk. simpl in Hk.
+        destruct Hk as [<-|[<-|[<-|[<-|[<-|[<-|[]]]]]]]; eexists; (split; [reflexivity|reflexivity]).
+  Qed.
+
   (* the theorem's conclusion on this instance, also computed directly from the definitions *)
   Example ab_has_probability_one_quarter :
     (prob (tree_eqb t_ab) (spec_sample rule_of cnt 10 0 2) == 1 / inject_Z 4)%Q.
@@ -362,6 +706,83 @@ Module Ex.
   Proof. reflexivity. Qed.
 End Ex.
 
+(* ------------------------------------------------------------ non-vacuity, with parameters *)
+(* All words over {a, b} with the statistic k = number of a's (Count/SampleParamsExample.v):
+   S = eps + a.S + b.S, count(S, n, k) = binomial(n, k).  Every hypothesis of C08_uniform_params holds. *)
+Module ExParams.
+  Example hypotheses_hold :
+    tables_ok (ex_rule false) ex_tab /\ contract_ok (ex_rule false) ex_tab /\
+    (forall c, pk_kind (ex_rule false c) = K_ATOM -> atom_ok (ex_rule false) ex_tab c) /\
+    (forall c, pk_kind (ex_rule false c) = K_UNION -> union_ok (ex_rule false) ex_tab c) /\
+    (forall c, pk_kind (ex_rule false c) = K_PRODUCT -> product_ok (ex_rule false) ex_tab c) /\
+    (forall c, pk_kind (ex_rule false c) = K_UNION -> fixed_honest (ex_rule false) ex_tab c) /\
+    pwf (ex_rule false) t_ab 0 /\ ptsize (ex_rule false) t_ab = 2 /\ tpar (ex_rule false) t_ab = [1] /\
+    pcnt ex_tab 0 2 [1] = 2 /\ dict_for (ex_rule false) 0 P_k1 [1].
+  Proof. exact ex_hypotheses_hold. Qed.
+
+  (* the theorem applied: "ab" among the 2 words of length 2 with one a *)
+  Example ab_by_theorem :
+    (prob (tree_eqb t_ab) (pspec_sample (ex_rule false) ex_tab 10 0 2 P_k1) == 1 / inject_Z 2)%Q.
+  Proof.
+    destruct hypotheses_hold as (H1 & H2 & H3 & H4 & H5 & H6 & W & S & T & C & D).
+    pose proof (C08_uniform_params (ex_rule false) ex_tab H1 H2 H3 H4 H5 H6 t_ab 0%nat 10%nat P_k1 W) as X.
+    rewrite S, T, C in X. apply X; [simpl; lia|exact D].
+  Qed.
+
+  (* ... and computed directly from the definitions *)
+  Example ab_by_computation :
+    (prob (tree_eqb t_ab) (pspec_sample (ex_rule false) ex_tab 10 0 2 P_k1) == 1 / inject_Z 2)%Q.
+  Proof. exact ex_good_probability. Qed.
+
+  Example arity_holds : arity_ok (ex_rule false) ex_tab.
+  Proof. exact (ex_arity_ok false). Qed.
+
+  (* the refuted variant: "b" with probability 1/2, "a" never *)
+  Example bad_root_probabilities :
+    (prob (tree_eqb t_a_root) (pspec_sample (ex_rule true) ex_tab 10 6 1 []) == 0)%Q /\
+    (prob (tree_eqb t_b_root) (pspec_sample (ex_rule true) ex_tab 10 6 1 []) == 1 / inject_Z 2)%Q.
+  Proof. destruct ex_bad_probabilities as (A & B & _). split; assumption. Qed.
+End ExParams.
+
+(* ... and with dictionaries that MERGE and DROP statistics (Count/SampleParamsExample2.v): class 7 =
+   the same words with statistics (k1, k2, k3) = (#a, #a, #c), a unary union to class 0 with the
+   dictionary {k1: k, k2: k} (k3 is not a key: `zeroes`).  Every hypothesis holds again. *)
+Module ExMerge.
+  Example hypotheses_hold :
+    tables_ok ex2_rule ex2_tab /\ contract_ok ex2_rule ex2_tab /\ arity_ok ex2_rule ex2_tab /\
+    (forall c, pk_kind (ex2_rule c) = K_ATOM -> atom_ok ex2_rule ex2_tab c) /\
+    (forall c, pk_kind (ex2_rule c) = K_UNION -> union_ok ex2_rule ex2_tab c) /\
+    (forall c, pk_kind (ex2_rule c) = K_PRODUCT -> product_ok ex2_rule ex2_tab c) /\
+    (forall c, pk_kind (ex2_rule c) = K_UNION -> fixed_honest ex2_rule ex2_tab c) /\
+    pk_eps (ex2_rule 7) = [[(1, 1); (2, 1)]] /\ pk_params (ex2_rule 7) = [1; 2; 3] /\
+    pwf ex2_rule t7_ab 7 /\ ptsize ex2_rule t7_ab = 2 /\ tpar ex2_rule t7_ab = [1; 1; 0] /\
+    pcnt ex2_tab 7 2 [1; 1; 0] = 2 /\ dict_for ex2_rule 7 P7 [1; 1; 0].
+  Proof.
+    destruct ex2_tree as (W & S & T & C & D).
+    split; [exact ex2_tables_ok|]. split; [exact ex2_contract_ok|]. split; [exact ex2_arity_ok|].
+    split; [exact ex2_atoms_ok|]. split; [exact ex2_unions_ok|]. split; [exact ex2_products_ok|].
+    split; [exact ex2_honest|]. repeat (split; [reflexivity|]). tauto.
+  Qed.
+
+  Example merged_by_theorem :
+    (prob (tree_eqb t7_ab) (pspec_sample ex2_rule ex2_tab 12 7 2 P7) == 1 / inject_Z 2)%Q.
+  Proof.
+    destruct hypotheses_hold as (H1 & H2 & _ & H3 & H4 & H5 & H6 & _ & _ & W & S & T & C & D).
+    pose proof (C08_uniform_params ex2_rule ex2_tab H1 H2 H3 H4 H5 H6 t7_ab 7%nat 12%nat P7 W) as X.
+    rewrite S, T, C in X. apply X; [simpl; lia|exact D].
+  Qed.
+
+  (* computed from the definitions: the same probability; k1 <> k2 (contradiction) or k3 <> 0 (zeroes):
+     the only child is skipped, the count is 0 and the sampler refuses before drawing *)
+  Example merged_by_computation :
+    (prob (tree_eqb t7_ab) (pspec_sample ex2_rule ex2_tab 12 7 2 P7) == 1 / inject_Z 2)%Q /\
+    pspec_sample ex2_rule ex2_tab 12 7 2 P7_contra = Fail E_INVALID_OP /\
+    pspec_sample ex2_rule ex2_tab 12 7 2 P7_zero = Fail E_INVALID_OP /\
+    union_extra [D7] [[]] P7_contra = Ok [None] /\
+    union_zero_skip (union_zeroes [1; 2; 3] D7) P7_zero = true.
+  Proof. destruct ex2_computed as (A & B & C & D & E & _). repeat split; assumption. Qed.
+End ExMerge.
+
 Print Assumptions C08_threshold.
 Print Assumptions C08_threshold_interval.
 Print Assumptions C08_threshold_union.
@@ -375,3 +796,23 @@ Print Assumptions C08_uniform.
 Print Assumptions C08_counted.
 Print Assumptions C08_support.
 Print Assumptions C08_reject_empty.
+Print Assumptions C08_equivalence_step.
+Print Assumptions C08_equivalence_path.
+Print Assumptions C08_uniform_true_counts.
+Print Assumptions C08_rules_local.
+Print Assumptions C08_uniform_params.
+Print Assumptions C08_counted_params.
+Print Assumptions C08_support_params.
+Print Assumptions C08_union_weights_params.
+Print Assumptions C08_product_weights_params.
+Print Assumptions C08_pick_dict_union.
+Print Assumptions C08_pick_dict_product.
+Print Assumptions C08_path_dictionary.
+Print Assumptions C08_path_fixed_determined.
+Print Assumptions C08_path_fixed_honest.
+Print Assumptions C08_uniform_params_refuted.
+Print Assumptions C08_reject_empty_params.
+Print Assumptions C08_union_total_params.
+Print Assumptions C08_product_total_params.
+Print Assumptions C08_draws_return_union_params.
+Print Assumptions C08_draws_return_product_params.
